@@ -73,6 +73,7 @@ func c10State(c *Ctx, n *Node) []Violation {
 	names := keys(a.Branches)
 	r, _ := c.Probe(n.State, nil, "branch", "--list")
 	got, cur := ParseBranchList(r.Stdout)
+	sort.Strings(got) // the statement fixes what is listed, not the order of the lines
 	if r.Exit != 0 || fmt.Sprint(got) != fmt.Sprint(names) || cur != a.HeadRef {
 		vs = append(vs, Violation{Oracle: "branch-list-exact", Command: "branch", Tags: tags,
 			Detail: fmt.Sprintf("branch --list printed %q (current %q, exit %d), stored branches %q, HEAD names %q", got, cur, r.Exit, names, a.HeadRef),
